@@ -71,3 +71,13 @@ pub open spec fn pis_after(p: Map<nat, int>, n: nat, s: Constraint) -> Map<nat, 
 }
 
 } // verus!
+
+verus! {
+/// value a gate forces on its output wire:  q_M ab + q_L a + q_R b + q_F d + q_C + PI  (mod R)
+pub open spec fn eo_x(c: Composer, s: Constraint) -> int {
+    let a = wits(c)[s.w(0) as int];
+    let b = wits(c)[s.w(1) as int];
+    let d = wits(c)[s.w(3) as int];
+    (s.q(0) * a * b + s.q(1) * a + s.q(2) * b + s.q(4) * d + s.q(5) + s.q(6)) % R()
+}
+}
